@@ -262,7 +262,8 @@ func predicates(client *resolve.LocalClient, g *resolve.Graph, st *modelStats) (
 		}
 		return k
 	}
-	nodeKeys := map[resolve.NodeID]map[artKey]bool{}
+	// (the root occupies its own artifact key without an edge saying so)
+	nodeKeys := map[resolve.NodeID]map[artKey]bool{0: {artKey{name: g.Nodes[0].Version.Name}: true}}
 	for _, e := range g.Edges {
 		if nodeKeys[e.To] == nil {
 			nodeKeys[e.To] = map[artKey]bool{}
